@@ -1,4 +1,5 @@
 """C05 - backlinks are exact (structural necessary conditions)."""
+import re
 from vlib import factbase as fb
 from vlib import q
 from .common import ctx, loc
@@ -209,8 +210,13 @@ def rule_r3(facts, rep, rid="C05-R3"):
                         src_l = through_lets(ci, src_l["recv"])
                     lits = lits or [y["v"][2:] for y in fb.walk(src_l or {}) if y.get("k") == "lit" and str(y.get("v", "")).startswith("s:")]
                     good = True
-    if good and len(lits) >= 2 and "http://" in lits and "https://" in lits:
+    audited = {"http://", "https://", "mailto:"}
+    partial = [l for l in lits if not re.match(r"^[a-z][a-z0-9+.-]*:(//)?$", l)]
+    if good and audited <= set(lits) and not partial:
         rep.ok(rid, isref.def_ + "|shape", "negated disjunction of case-folded scheme prefixes: %s" % lits, isref.loc)
+    elif good and lits and not partial and "http://" in lits and "https://" in lits:
+        rep.violation(rid, isref.def_ + "|shape", "is_ref_url no longer treats %s as external: such urls are taken for note references - they get the references extension appended, are "
+                      "looked up as keys and re-relativised (`mailto:ann@example.org` is written back as `mailto:ann@example.org.md`)" % sorted(audited - set(lits)), isref.loc)
     else:
         rep.violation(rid, isref.def_ + "|shape", "is_ref_url is no longer `!(lower(url).starts_with(scheme) || ...)` over at least http:// and https:// (found %s)" % lits, isref.loc)
 
@@ -357,3 +363,42 @@ def run(facts, rep, tier):
     c15.rule_r3(facts, rep, "C05-R2b")
     rep.rule("C05-R7", "Only a paragraph that consists of exactly one reference is a block reference; every other paragraph keeps its links as inline links.")
     rule_r7(facts, rep)
+    rep.rule("C05-R8", "= C13-R3: a backlink is reported at the line of the linking block - every node-creating arm of the SectionsBuilder records the node's line range (a table without one is "
+             "reported at line 0).")
+    from . import c13 as _c13
+    _c13.rule_r3(facts, _MultiOnly13(rep), "C05-R8")
+
+
+class _MultiOnly13:
+    """Forwards only the line-range recording instances of C13-R3."""
+
+    def __init__(self, rep):
+        self.rep = rep
+        self.stats = rep.stats
+
+    def _keep(self, key):
+        return "records-line-range" in key
+
+    def ok(self, rule, key, detail="", loc=None, nontrivial=True):
+        if self._keep(key):
+            self.rep.ok(rule, key, detail, loc, nontrivial)
+
+    def violation(self, rule, key, detail, loc=None):
+        if self._keep(key):
+            self.rep.violation(rule, key, detail, loc)
+
+    def undecided(self, rule, key, detail, loc=None):
+        if self._keep(key):
+            self.rep.undecided(rule, key, detail, loc)
+
+    def floor(self, *a, **k):
+        pass
+
+    def anchor_missing(self, rule, what):
+        self.rep.anchor_missing(rule, what)
+
+    def saw_fn(self, fn):
+        self.rep.saw_fn(fn)
+
+    def rule(self, rid, text):
+        pass
